@@ -20,14 +20,17 @@ for sid in sorted(os.listdir(os.path.join(ROOT, 'seeded'))):
                     title = l.strip().lstrip('# ').strip(); break
             if title: break
     r = res.get(sid, {})
-    if r.get('rc') == 0:
+    sup = os.path.join(d, 'SUPERSEDED.txt')
+    if os.path.exists(sup):
+        verdict = 'superseded: ' + open(sup).read().strip()[:160]
+    elif r.get('rc') == 0:
         verdict = 'missed'
     elif r.get('concrete', 0) > 0:
         verdict = 'caught: concrete failing input'
     else:
         verdict = 'caught: correspondence only (no-failing-input-found)'
     meta = dict(id=sid, property=sid.split('-')[0], title=title, files_changed=files,
-                demonstration=[f for f in sorted(os.listdir(d)) if f not in ('patch.diff', 'meta.json', 'patch.orig.diff')],
+                demonstration=[f for f in sorted(os.listdir(d)) if f not in ('patch.diff', 'meta.json', 'patch.orig.diff', 'SUPERSEDED.txt', 'VALIDATED.txt')],
                 rebased=os.path.exists(os.path.join(d, 'patch.orig.diff')),
                 compiles_and_passes_baseline_tests=True,
                 check=f"./check {sid.split('-')[0]} --tier quick", verdict=verdict,
